@@ -18,6 +18,19 @@ import (
 type fileSpec struct {
 	N      int    `json:"n"`                // statements
 	TxMode string `json:"txmode,omitempty"` // per-file atlas:txmode directive
+	Ck     bool   `json:"checkpoint,omitempty"` // atlas:checkpoint file
+}
+
+// start is the index of the file a first run on an empty database starts from: the latest checkpoint,
+// or the first file. Files before it are never executed and get no revision.
+func start(shape []fileSpec) int {
+	st := 0
+	for f, fs := range shape {
+		if fs.Ck {
+			st = f
+		}
+	}
+	return st
 }
 
 type Case struct {
@@ -30,13 +43,20 @@ func sid(f, i int) int { return (f+1)*10 + i + 1 }
 
 func files(shape []fileSpec) map[string]string {
 	out := map[string]string{}
+	st := start(shape)
 	for f, fs := range shape {
 		var b strings.Builder
+		if fs.Ck {
+			b.WriteString("-- atlas:checkpoint\n")
+		}
 		if fs.TxMode != "" {
-			b.WriteString("-- atlas:txmode " + fs.TxMode + "\n\n")
+			b.WriteString("-- atlas:txmode " + fs.TxMode + "\n")
+		}
+		if fs.Ck || fs.TxMode != "" {
+			b.WriteString("\n")
 		}
 		for i := 0; i < fs.N; i++ {
-			if f == 0 && i == 0 {
+			if f == st && i == 0 {
 				b.WriteString("CREATE TABLE IF NOT EXISTS journal (sid integer NOT NULL);\n")
 				continue
 			}
@@ -56,13 +76,14 @@ func modeOf(mode string, fs fileSpec) string {
 }
 
 type state struct {
+	start int
 	table bool
 	sids  map[int]int
 	revs  map[string][3]string
 }
 
-func read(w *clih.Work) (*state, error) {
-	s := &state{sids: map[int]int{}}
+func read(w *clih.Work, shape []fileSpec) (*state, error) {
+	s := &state{sids: map[int]int{}, start: start(shape)}
 	if _, err := os.Stat(w.Path("db.sqlite")); err != nil {
 		return s, nil
 	}
@@ -87,7 +108,7 @@ func read(w *clih.Work) (*state, error) {
 
 // present reports whether the effect of statement (f,i) is in the database.
 func (s *state) present(f, i int) bool {
-	if f == 0 && i == 0 {
+	if f == s.start && i == 0 {
 		return s.table
 	}
 	return s.sids[sid(f, i)] > 0
@@ -145,14 +166,31 @@ func Eval(c Case) (res Result) {
 		res.Skipped = "crash point not reached: " + r1.String()
 		return
 	}
-	s1, err := read(w)
+	s1, err := read(w, c.Shape)
 	if err != nil {
 		bad("harness: reading state after the crash: %v", err)
 		return
 	}
 	// --- after the crash ---
 	allPresent, nonePresent := true, true
+	st := start(c.Shape)
+	untouched := func(s *state, when string) {
+		for f := 0; f < st; f++ {
+			for i := 0; i < c.Shape[f].N; i++ {
+				if s.sids[sid(f, i)] > 0 {
+					bad("%s statement %d of file %d, which precedes the latest checkpoint, was executed", when, i+1, f+1)
+				}
+			}
+			if _, ok := s.revs[strconv.Itoa(f+1)]; ok {
+				bad("%s there is a revision for file %d, which precedes the latest checkpoint", when, f+1)
+			}
+		}
+	}
+	untouched(s1, "after the crash")
 	for f, fs := range c.Shape {
+		if f < st {
+			continue
+		}
 		all, none := true, true
 		prefix := 0
 		for i := 0; i < fs.N; i++ {
@@ -186,18 +224,22 @@ func Eval(c Case) (res Result) {
 		bad("re-running the command after the crash fails: %s", r2.String())
 		return
 	}
-	s2, err := read(w)
+	s2, err := read(w, c.Shape)
 	if err != nil {
 		bad("harness: reading state after the re-run: %v", err)
 		return
 	}
 	dups := 0
+	untouched(s2, "after the re-run")
 	for f, fs := range c.Shape {
+		if f < st {
+			continue
+		}
 		for i := 0; i < fs.N; i++ {
 			if !s2.present(f, i) {
 				bad("after the re-run statement %d of file %d has no effect (lost)", i+1, f+1)
 			}
-			if f == 0 && i == 0 {
+			if f == st && i == 0 {
 				continue
 			}
 			n := s2.sids[sid(f, i)]
@@ -241,6 +283,8 @@ func shapes(tier string) [][]fileSpec {
 		{{N: 2}, {N: 1}},
 		{{N: 1}, {N: 3}},
 		{{N: 2}, {N: 3, TxMode: "none"}},
+		// checkpoints: a first run starts at the latest one; an older checkpoint and files follow it.
+		{{N: 1, Ck: true}, {N: 2, Ck: true}, {N: 1}, {N: 1}},
 	}
 	if tier != "thorough" {
 		return q
@@ -248,12 +292,14 @@ func shapes(tier string) [][]fileSpec {
 	return append(q, [][]fileSpec{
 		{{N: 1}}, {{N: 3}}, {{N: 1}, {N: 1}}, {{N: 2}, {N: 2}}, {{N: 3}, {N: 3}}, {{N: 1}, {N: 1}, {N: 1}}, {{N: 2}, {N: 1}, {N: 2}},
 		{{N: 2, TxMode: "none"}, {N: 2}}, {{N: 2}, {N: 2, TxMode: "file"}}, {{N: 3}, {N: 4}},
+		{{N: 1}, {N: 2, Ck: true}, {N: 2}}, {{N: 2, Ck: true}}, {{N: 1}, {N: 1, Ck: true}, {N: 1}, {N: 3, Ck: true}, {N: 1}},
+		{{N: 1, Ck: true}, {N: 1}, {N: 3, Ck: true, TxMode: "none"}, {N: 2}, {N: 1}},
 	}...)
 }
 
 func Run(r *report.Run) {
 	defer clih.Cleanup()
-	r.Rule = "real CLI binary (built with -tags verif) on a real SQLite file: tx-mode {file, all, none} x directory shapes (1-3 files x 1-4 statements, per-file txmode directives; statements INSERT their own id into a journal table) x every crash point reached by the crash-free run of that shape (stmt.before/after, rev.before/after, commit.before/after, commitall.before/after - discovered by a counting run, so complete by construction) ; the process is killed (exit 137, no deferred code) and the same command is run again; states read by our own SQLite connection; non-trivial = case whose crash point was reached; distinct = (mode, shape, point)"
+	r.Rule = "real CLI binary (built with -tags verif) on a real SQLite file: tx-mode {file, all, none} x directory shapes (1-5 files x 1-4 statements, per-file txmode directives, checkpoint files incl. two checkpoints with files after the latest; statements INSERT their own id into a journal table) x every crash point reached by the crash-free run of that shape (stmt.before/after, rev.before/after, commit.before/after, commitall.before/after - discovered by a counting run, so complete by construction) ; the process is killed (exit 137, no deferred code) and the same command is run again; states read by our own SQLite connection; non-trivial = case whose crash point was reached; distinct = (mode, shape, point)"
 	r.Assumptions = []string{
 		"the re-run happens after the advisory lock of the killed process expired (--lock-timeout 1ms and stale lock files removed)",
 		"SQLite's own journal recovery is trusted; the first statement is CREATE TABLE IF NOT EXISTS so that re-executing the in-flight statement in none mode is possible at all",
